@@ -179,4 +179,5 @@ def check(ctx):
     check_install(ctx)
     la = lockmodel.analysis(ctx)
     c10.check_exceptions(ctx, la)
+    c04.check_group_ack(ctx)   # an acknowledged follower is part of the logged group
     c04.check_write(ctx)       # publication of the sequence number after the insert (linearization point of a write)
